@@ -431,6 +431,15 @@ EvNode(e, M) ==
     [] e.k = "switch" -> (LET s == Ev(e.e, M) IN IF s.ctl # "norm" THEN s ELSE
                           LET r == Cases(e.cases, 1, PushScope(s.M), Val(s.M, s.d), FALSE) IN R(PopScope(r.M), r.ctl, IF r.ctl = "ret" THEN r.d ELSE 0))
     [] e.k = "interp" -> Interp(e.parts, 1, M, "")
+    [] e.k = "range" ->           \* [lo..hi]: generate_range(lo, hi) - a fresh Vector of fresh elements on every evaluation
+        (LET a == Ev(e.lo, M) IN IF a.ctl # "norm" THEN a ELSE
+         LET b == Ev(e.hi, a.M) IN IF b.ctl # "norm" THEN b ELSE
+         IF Val(b.M, a.d).t # "int" \/ Val(b.M, b.d).t # "int" THEN Err(b.M, "ee") ELSE
+         LET lo == Val(b.M, a.d).i  hi == Val(b.M, b.d).i
+             n == IF hi >= lo THEN hi - lo + 1 ELSE 0
+             Mc == [b.M EXCEPT !.cells = @ \o [k \in 1..n |-> [v |-> VInt(lo + k - 1), c |-> FALSE, rv |-> FALSE]]]
+             Mo == NewObj(Mc, Obj("vec", "", <<>>, [k \in 1..n |-> Len(b.M.cells) + k], NoAst, <<>>))
+         IN IF n > 20 THEN R(b.M, "fuel", 0) ELSE Temp(Mo, VRef("vec", LastObj(Mo))))
     [] e.k = "throw" -> (LET a == Ev(e.e, M) IN IF a.ctl # "norm" THEN a ELSE IF a.d = 0 THEN Err(a.M, "ee") ELSE Thr(a.M, a.d))
     [] e.k = "try" ->             \* try { b } catch(ty n) { h } ... finally { f }   (C10's reference semantics inside the language model)
         (LET b == Block(e.b, PushScope(M))                      \* the Try node's own scope around the body block
